@@ -2,8 +2,30 @@ module verifharness
 
 go 1.23.0
 
-require golang.org/x/perf v0.0.0
+require (
+	github.com/aclements/go-moremath v0.0.0-20210112150236-f10218a38794
+	golang.org/x/perf v0.0.0
+)
 
-require github.com/aclements/go-moremath v0.0.0-20210112150236-f10218a38794 // indirect
+require (
+	git.sr.ht/~sbinet/gg v0.3.1 // indirect
+	github.com/aclements/go-gg v0.0.0-20170118225347-6dbb4e4fefb0 // indirect
+	github.com/ajstarks/svgo v0.0.0-20211024235047-1546f124cd8b // indirect
+	github.com/go-fonts/liberation v0.2.0 // indirect
+	github.com/go-latex/latex v0.0.0-20210823091927-c0d11ff05a81 // indirect
+	github.com/go-pdf/fpdf v0.6.0 // indirect
+	github.com/golang/freetype v0.0.0-20170609003504-e2365dfdc4a0 // indirect
+	github.com/gonum/blas v0.0.0-20181208220705-f22b278b28ac // indirect
+	github.com/gonum/floats v0.0.0-20181209220543-c233463c7e82 // indirect
+	github.com/gonum/internal v0.0.0-20181124074243-f884aa714029 // indirect
+	github.com/gonum/lapack v0.0.0-20181123203213-e4cdc5a0bff9 // indirect
+	github.com/gonum/matrix v0.0.0-20181209220409-c518dec07be9 // indirect
+	github.com/google/safehtml v0.0.2 // indirect
+	github.com/mattn/go-sqlite3 v1.14.14 // indirect
+	golang.org/x/image v0.26.0 // indirect
+	golang.org/x/net v0.39.0 // indirect
+	golang.org/x/text v0.24.0 // indirect
+	gonum.org/v1/plot v0.10.1 // indirect
+)
 
 replace golang.org/x/perf => /repo
